@@ -30,6 +30,8 @@ CRAFT = [
     b'<Lexicon id="a" version="1" label="Col A&#9;Col B&#10;x&#13;y&#xA;z&#x9;&#xD;&#13;&#10;">',
     b"<Lexicon id='a&#9;b' version='1&#10;2' label='lit\ttab&#9;ref\r\nlit&#13;&#10;ref &amp;#9; &#32;'>",
     b'<LexiconExtension id="x" version="1"><Extends id="b&#10;c" version="2&#9;"/>',
+    # numeric references are the referenced character itself (XML), not what an HTML decoder makes of them
+    b'<Lexicon id="a&#150;b" version="1&#x85;" label="Nouns &#150; Verbs &#146; &#127; &#xFDD0; &#x9F; &#128;">',
 ]
 
 
